@@ -127,6 +127,10 @@ MUTANTS = [
      "Union-operand-without-mark_contains_union"),
     ("regex-drop-z", "C04", "src/formatters/general.rs",
      'r#"^[^\\n\\r"\'0-9\\\\abfnrtuvxz]$"#', 'r#"^[^\\n\\r"\'0-9\\\\abfnrtuvx]$"#', "missing=z"),
+    ("group-line-distance", "C12", "src/sort_requires.rs",
+     "                            current_line - previous_require_line > 1", "                            current_line - previous_require_line > 2", "new-group-conditions"),
+    ("group-kind-ignored", "C12", "src/sort_requires.rs",
+     "                        Some(BlockPartition::RequiresGroup(other_kind, _))\n                            if *other_kind != expression_kind =>\n                        {\n                            true\n                        }\n", "", "new-group-conditions"),
     ("sort-unstable", "C12", "src/sort_requires.rs",
      "list.sort_by_key(|key| key.0.clone());", "list.sort_unstable_by_key(|key| key.0.clone());", "unstable-sort"),
     ("walk-dedup-dropped", "C16", "src/cli/main.rs",
